@@ -221,6 +221,11 @@ func (p *Parser) MergeFile(path string) error {
 		return err
 	}
 
+	// Parent layers are not loaded here, so $parent has nothing to say.
+	for _, doc := range f.docs {
+		doc.PopMapValue("$parent")
+	}
+
 	return p.mergeFile(f)
 }
 
